@@ -1394,6 +1394,27 @@ def _variants_child(c):
         out.append((f"C09/{k}/reuse/other-request", f"a second, different request on the same Sequence / matrix objects gives "
                     f"{str(got2)[:160]}, on fresh objects {str(ref2)[:160]}; first {_brief(c)}; second {_brief(c2)}"))
     steps.append(("reuse-after-other-request", lambda: _call(c, built=(s1, s2, matrix)), (), False))
+    arg_arrays = [("band ndarray", barr)] if k == "banded" else [("seed ndarray", sarr)]
+    if k != "banded":
+        # 'views are values': an Alignment returned for an ndarray seed (a row of KmerTable.match() / of another trace /
+        # a reused buffer) must not share memory with that array, in EVERY direction, and editing the buffer afterwards
+        # must not change the alignment returned earlier
+        for dr in ("both", "upstream", "downstream"):
+            buf = np.array([si, sj], dtype=np.int64)
+            try:
+                rr = g(seed=buf, dr=dr)
+            except Exception:  # noqa: BLE001
+                continue
+            rr = rr if isinstance(rr, list) else [rr]
+            before = [(int(x.score), x.trace.tolist()) for x in rr]
+            shared = any(np.shares_memory(x.trace, buf) for x in rr)
+            buf[:] = [si + 7, sj + 9]
+            after = [(int(x.score), x.trace.tolist()) for x in rr]
+            if shared or before != after:
+                out.append((f"C09/{k}/result-aliases-seed-argument",
+                            f"direction={dr}: the returned Alignment.trace shares memory with the ndarray passed as seed "
+                            f"(editing the seed buffer afterwards turns {before} into {after}); {_brief(c)}"))
+                break
     for name, fn, allowed, use_so in steps:
         got = run(fn)
         want = ref_so if use_so else ref
@@ -1450,6 +1471,14 @@ def _variants_oracle(c):
 def _variants(rng):
     c = _case(rng, 7) if rng.random() < 0.7 else _multi_end(rng)
     c = {k: v for k, v in c.items() if k not in ("ops", "fork", "on_optimal")}
+    if c["kind"] != "banded" and rng.random() < 0.3:
+        # the seed-only branch: upstream requested but a seed coordinate is 0 (or downstream from the last position)
+        if rng.random() < 0.7:
+            c["dir"] = "upstream"
+            c["seed"] = rng.choice([[0, c["seed"][1]], [c["seed"][0], 0], [0, 0]])
+        else:
+            c["dir"] = "downstream"
+            c["seed"] = [len(c["a"]) - 1, len(c["b"]) - 1]
     if c.get("w1") == "u32":
         c["w1"] = "u16"
     if c.get("w2") == "u32":
@@ -1573,8 +1602,64 @@ def _internal_oracle(c):
     return [(f"C09/internal/{c['internal']}/crash", f"the process died / hung in {c['internal']}; {c}")]
 
 
+def _banded_local_affine(rng):
+    """align_banded(local=True) with an AFFINE penalty, dense: short sequences over 2-4 letters, cheap gap extension, and
+    (engineered half) the situation 'positive stretch, a gap, a mismatch that uses the stretch up, then the best local
+    alignment': the cell in front of the optimal alignment has a non-positive match score that stems from a GAP state,
+    so the traceback must stop at that zero cell.  Both orientations (gap in either sequence; align_banded also swaps
+    the sequences by length), bands that contain the needed diagonals (full, tight, generous, reversed order)."""
+    k = rng.randint(2, 4)
+    mt = rng.choice([2, 3, 5])
+    go, ge = rng.choice([(-7, -1), (-3, -1), (-2, -1), (-4, -2), (-2, -2), (-5, 0), (-3, 0)])
+    if rng.random() < 0.55:
+        p = rng.randint(2, 4)
+        glen = rng.randint(1, 2)
+        gcost = go + (glen - 1) * ge
+        while p * mt + gcost <= 0:
+            p += 1
+        rest = p * mt + gcost                       # > 0: what the gap state carries into the mismatch
+        mm = -rest - rng.choice([0, 0, 1, 2])       # the mismatch uses it up (<= 0)
+        q = p + rng.randint(1, 2)                   # the later stretch wins
+        letters = list(range(k))
+        U = [rng.choice(letters) for _ in range(p)]
+        G = [rng.choice([x for x in letters if x != U[-1]] or letters) for _ in range(glen)]
+        x_ = rng.choice(letters)
+        y_ = rng.choice([z for z in letters if z != x_] or letters)
+        V = [rng.choice(letters) for _ in range(q)]
+        a = U + G + [x_] + V
+        b = U + [y_] + V
+        if rng.random() < 0.5:
+            a, b = b, a
+        for seq_ in (a, b):                         # a little noise in front / behind
+            if rng.random() < 0.3:
+                seq_.insert(0, rng.choice(letters))
+            if rng.random() < 0.3:
+                seq_.append(rng.choice(letters))
+    else:
+        mm = rng.choice([-4, -3, -2, -1])
+        a = [rng.randrange(k) for _ in range(rng.randint(3, 9))]
+        b = [rng.randrange(k) for _ in range(rng.randint(3, 9))]
+    M = [[mt if i == j else mm for j in range(k)] for i in range(k)]
+    n, m = len(a), len(b)
+    r = rng.random()
+    if r < 0.5:
+        band = [-(n - 1) - rng.randint(0, 2), (m - 1) + rng.randint(0, 2)]
+    elif r < 0.8:
+        band = [-rng.randint(1, 4), rng.randint(1, 4)]
+    else:
+        band = [rng.randint(-n, 0), rng.randint(0, m)]
+    if rng.random() < 0.4:
+        band.reverse()
+    c = {"kind": "banded", "a": a, "b": b, "M": M, "w1": rng.choice(["u8", "u8", "u8", "u16"]), "w2": "u8",
+         "max": rng.choice([1, 3, 20]), "gap": [go, ge], "local": True, "band": band}
+    c["ops"] = _ops(c)
+    return c
+
+
 def cases(rng, tier):
     quick = tier == "quick"
+    for k in range(250 if quick else 2500):
+        yield _banded_local_affine(rng)
     for k in range(90 if quick else 600):
         yield _internal(rng)
     for k in range(100 if quick else 800):
